@@ -502,6 +502,23 @@ Definition set_display (t fld col : Z) (set : bool) (reuse : Z) (m : meta) : res
     end
   else Ok m.
 
+(* SetDisplayFormula on a formula column of a summary table: _adjust_one_column_update copies the displayCol
+   update to the sister columns (same colId, formula columns of the other summary tables of the source table;
+   named by the caller): they all point at the helper column of this table *)
+Definition set_display_sisters (t col : Z) (set : bool) (reuse : Z) (sisters : list Z) (m : meta) : res meta :=
+  if negb (mem t (tids m)) then Fail
+  else match find_column m col with
+       | None => Fail
+       | Some c =>
+         if negb ((c_src c =? 0) && is_summary_table m (c_parent c)) then Unmodelled
+         else bind (helper_col t (c_display c) set reuse m) (fun '(m1, r) =>
+           match r with
+           | None => Ok m1
+           | Some d => Ok (set_columns m1 (map (fun x => if (c_id x =? col) || mem (c_id x) sisters
+                                                          then with_display d x else x) (m_columns m1)))
+           end)
+       end.
+
 (* UpdateRecord _grist_Tables_column c {visibleCol: v}, v an existing column (the "show column" of a reference
    column; the client sends it together with SetDisplayFormula).  Formula columns of summary tables copy the
    update to their sister columns: outside the fragment. *)
@@ -513,6 +530,30 @@ Definition set_visible (col v : Z) (m : meta) : res meta :=
     else if (c_src c =? 0) && is_summary_table m (c_parent c) then Unmodelled
     else Ok (upd_column col (fun c => mkC (c_id c) (c_parent c) (c_kind c) (c_display c) v (c_src c) (c_rules c)
                                           (c_reft c)) m)
+  end.
+
+(* ModifyColumn with a type among the updated values (given, or guessed when an Any formula column becomes a data
+   column), on a column of an ordinary table.  compatible: old and new type are Ref/RefList of the same table:
+   nothing else changes.  Otherwise _adjust_one_column_update clears displayCol/visibleCol of the column and of
+   the group-by columns based on it, and _updateColumnRecords clears them in the fields of those of these columns
+   whose type really changed (changed: the column itself, gchanged: its group-by copies). *)
+Definition modify_type (col newreft : Z) (compatible changed gchanged : bool) (m : meta) : res meta :=
+  match find_column m col with
+  | None => Fail
+  | Some c =>
+    if is_summary_table m (c_parent c) then Unmodelled
+    else if compatible then Ok m
+    else
+      let copies := map c_id (filter (fun x => c_src x =? col) (m_columns m)) in
+      let cleared := (if changed then [col] else []) ++ (if gchanged then copies else []) in
+      Ok (mkM (m_tables m)
+              (map (fun x => if (c_id x =? col) || (c_src x =? col)
+                             then mkC (c_id x) (c_parent x) (c_kind x) 0 0 (c_src x) (c_rules x) newreft else x)
+                   (m_columns m))
+              (m_views m) (m_sections m)
+              (map (fun f => if mem (f_col f) cleared
+                             then mkF (f_id f) (f_section f) (f_col f) 0 0 (f_rules f) (f_wopt f) else f) (m_fields m))
+              (m_tabbar m) (m_pages m) (m_schema m))
   end.
 
 (* doAddRule: a new helper column in table t, appended to the rules of the field / column / raw section *)
@@ -611,7 +652,6 @@ Definition find_summary (m : meta) (src : Z) (gb : list Z) : option trec :=
 Definition add_summary_table (name src : Z) (gb gbkinds fkinds : list Z) (m : meta) : res (meta * Z) :=
   if mem name (m_schema m) || mem name (map t_name (m_tables m)) then Unmodelled
   else if negb (Nat.eqb (length gb) (length gbkinds)) || negb (nodupb gb) then Unmodelled
-  else if existsb (fun c => mem (c_id c) gb && negb (c_display c =? 0)) (m_columns m) then Unmodelled
   else
     let t := next_id (tids m) in
     let c0 := next_id (cids m) in
@@ -629,11 +669,34 @@ Definition add_summary_table (name src : Z) (gb gbkinds fkinds : list Z) (m : me
     let m2 := add_fields sraw (visible_cols m1 t) m1 in
     Ok (set_tables m2 (map (fun r => if t_id r =? t then mkT t name 0 src sraw 0 else r) (m_tables m2)), t).
 
+(* maybe_copy_display_formula for the group-by columns, in order: a source column with a display column gives
+   its group-by column one too (SetDisplayFormula on the new table: a new helper column, or the helper made for
+   an earlier group-by column when the formula text is the same -- the caller says which id it got) *)
+Fixpoint copy_displays (t : Z) (ps : list (Z * Z * Z)) (m : meta) : res meta :=
+  match ps with
+  | [] => Ok m
+  | (g, sd, d) :: rest =>
+    if sd =? 0 then (if d =? 0 then copy_displays t rest m else Unmodelled)
+    else if d =? next_id (cids m)
+         then let '(m1, h) := do_add_column t K_DISPLAY 0 m in
+              copy_displays t rest (upd_column g (with_display h) m1)
+    else if existsb (fun c => (c_id c =? d) && (c_parent c =? t) && (c_kind c =? K_DISPLAY)) (m_columns m)
+         then copy_displays t rest (upd_column g (with_display d) m)
+    else Unmodelled
+  end.
+
+Definition add_summary_table_d (name src : Z) (gb gbkinds fkinds dcopies : list Z) (m : meta) : res (meta * Z) :=
+  if negb (Nat.eqb (length dcopies) (length gb)) then Unmodelled
+  else bind (add_summary_table name src gb gbkinds fkinds m) (fun '(m1, t) =>
+    let sds := map (fun g => match find_column m g with Some sc => c_display sc | None => 0 end) gb in
+    let ps := combine (combine (zseq (next_id (cids m)) (length gb)) sds) dcopies in
+    bind (copy_displays t ps m1) (fun m2 => Ok (m2, t))).
+
 Definition cols_of_table (m : meta) (cols : list Z) (t : Z) : bool :=
   forallb (fun c => existsb (fun cr => (c_id cr =? c) && (c_parent cr =? t)) (m_columns m)) cols.
 
 (* CreateViewSection with group-by columns, when no summary table with that key exists *)
-Definition create_summary (src v : Z) (gb : list Z) (name : Z) (gbkinds fkinds : list Z) (m : meta) : res meta :=
+Definition create_summary (src v : Z) (gb : list Z) (name : Z) (gbkinds fkinds dcopies : list Z) (m : meta) : res meta :=
   if (src =? 0) || negb (mem src (tids m)) then (if src =? 0 then Unmodelled else Fail)
   else if negb (cols_of_table m gb src) then Fail
   else
@@ -641,24 +704,73 @@ Definition create_summary (src v : Z) (gb : list Z) (name : Z) (gbkinds fkinds :
       match find_summary m1 src gb with
       | Some _ => Unmodelled
       | None =>
-        bind (add_summary_table name src gb gbkinds fkinds m1) (fun '(m2, t) =>
+        bind (add_summary_table_d name src gb gbkinds fkinds dcopies m1) (fun '(m2, t) =>
           let '(m3, s) := add_section t v1 false m2 in
-          let shown := map c_id (filter (fun c => (c_parent c =? t) && negb (c_kind c =? K_GROUP)) (m_columns m3)) in
+          let shown := map c_id (filter (fun c => (c_parent c =? t) && negb (c_kind c =? K_GROUP) && negb (c_kind c =? K_DISPLAY)) (m_columns m3)) in
           Ok (add_fields s shown m3))
       end).
+
+(* RenameColumn / RenameTable as far as the modelled cells go: the columns whose id changed (the column, the
+   group-by columns based on it, same-named formula columns of summary tables) get the kind their new id has;
+   the tables whose id changed (the table, its summary tables, summary tables grouped by a renamed column) get
+   their new names, in the metadata and in Engine.tables.  Which ids the engine picks is given by the caller;
+   the new names must again be unique and the same in both places. *)
+Definition reident (ckinds tnames : list (Z * Z)) (m : meta) : res meta :=
+  let newname t := match lookup (t_id t) tnames with Some n => n | None => t_name t end in
+  let rho n := match find (fun t => t_name t =? n) (m_tables m) with Some t => newname t | None => n end in
+  let m' := mkM (map (fun t => mkT (t_id t) (newname t) (t_pview t) (t_src t) (t_raw t) (t_card t)) (m_tables m))
+                (map (fun c => match lookup (c_id c) ckinds with
+                               | Some k => mkC (c_id c) (c_parent c) k (c_display c) (c_visible c) (c_src c)
+                                               (c_rules c) (c_reft c)
+                               | None => c end) (m_columns m))
+                (m_views m) (m_sections m) (m_fields m) (m_tabbar m) (m_pages m) (map rho (m_schema m)) in
+  let names := map t_name (m_tables m') in
+  if nodupb names && nodupb (m_schema m') && all_in names (m_schema m') && all_in (m_schema m') names
+  then Ok m' else Unmodelled.
+
+(* the view of a new section: 0 = AddView 'empty' *)
+Definition view_for (t v : Z) (m : meta) : res (meta * Z) :=
+  if v =? 0 then add_view t false m else if mem v (m_views m) then Ok (m, v) else Fail.
+
+(* CreateViewSection of a chart or form section: _RebuildViewFields picks some of the visible columns by type,
+   formula and position (given by the caller, checked to be columns of the table) *)
+Definition create_section_shown (t v : Z) (shown : list Z) (m : meta) : res meta :=
+  if (t =? 0) then Unmodelled
+  else if negb (mem t (tids m)) then Fail
+  else bind (view_for t v m) (fun '(m1, v1) =>
+    if negb (cols_of_table m1 shown t) then Unmodelled
+    else let '(m2, s) := add_section t v1 false m1 in Ok (add_fields s shown m2)).
+
+(* CreateViewSection with group-by columns when the summary table exists already: _get_or_add_columns may add
+   formula columns to it (kinds given), the new section shows the group-by and formula columns the code finds
+   by name (given, checked to be columns of that table) *)
+Definition create_summary_existing (src v : Z) (gb : list Z) (target : Z) (added shown : list Z) (m : meta)
+  : res meta :=
+  if (src =? 0) || negb (mem src (tids m)) then (if src =? 0 then Unmodelled else Fail)
+  else if negb (cols_of_table m gb src) then Fail
+  else bind (view_for src v m) (fun '(m1, v1) =>
+    match find_summary m1 src gb with
+    | None => Unmodelled
+    | Some st =>
+      if negb (t_id st =? target) then Unmodelled
+      else
+        let m2 := set_columns m1 (m_columns m1 ++ new_columns (next_id (cids m1)) target added) in
+        if negb (cols_of_table m2 shown target) then Unmodelled
+        else let '(m3, s) := add_section target v1 false m2 in Ok (add_fields s shown m3)
+    end).
 
 (* update_summary_section for one section: the target table (0: created, else an existing summary table which
    may get further formula columns), the fields moved to columns of the target (every other field of the
    section is deleted), the new group-by fields *)
 Record regroup := mkRG { rg_sec : Z; rg_target : Z; rg_name : Z; rg_src : Z; rg_gb : list Z; rg_gbkinds : list Z;
-                         rg_fkinds : list Z; rg_added : list Z; rg_remap : list (Z * Z); rg_new : list Z }.
+                         rg_fkinds : list Z; rg_dcopies : list Z; rg_added : list Z; rg_remap : list (Z * Z); rg_new : list Z }.
 
 (* the target table: created, or an existing one that may get further formula columns *)
 Definition regroup_target (r : regroup) (m : meta) : res (meta * Z) :=
   if negb (mem (rg_sec r) (sids m)) then Fail
   else if negb (mem (rg_src r) (tids m) && cols_of_table m (rg_gb r) (rg_src r)) then Fail   (* _fetch_table_col_recs *)
   else if rg_target r =? 0
-       then add_summary_table (rg_name r) (rg_src r) (rg_gb r) (rg_gbkinds r) (rg_fkinds r) m
+       then add_summary_table_d (rg_name r) (rg_src r) (rg_gb r) (rg_gbkinds r) (rg_fkinds r) (rg_dcopies r) m
   else if mem (rg_target r) (tids m)
        then Ok (set_columns m (m_columns m ++ new_columns (next_id (cids m)) (rg_target r) (rg_added r)),
                 rg_target r)
@@ -697,6 +809,29 @@ Definition apply_regroup (r : regroup) (m : meta) : res meta :=
       if sec_is_card m1 (rg_sec r) || sec_is_raw m1 (rg_sec r) then Unmodelled
       else if negb (cols_of_table m1 (map snd (rg_remap r) ++ rg_new r) tgt) then Unmodelled
       else Ok (regroup_fields r tgt m1))
+  end.
+
+(* DetachSummaryViewSection: AddTable with copies of the columns the section shows and a 'group' formula column
+   (final table id, column kinds and the tables their types refer to given by the caller), then the section and
+   all its fields move to the new table.  The raw section of the summary table is not refused by the code
+   (known finding C09-detach-raw-section): outside the fragment. *)
+Definition set_refts (refts : list (Z * Z)) (m : meta) : meta :=
+  set_columns m (map (fun c => match lookup (c_id c) refts with
+                               | Some r => mkC (c_id c) (c_parent c) (c_kind c) (c_display c) (c_visible c)
+                                               (c_src c) (c_rules c) r
+                               | None => c end) (m_columns m)).
+
+Definition detach (sec name : Z) (kinds : list Z) (refts remap : list (Z * Z)) (m : meta) : res meta :=
+  match find_section m sec with
+  | None => Fail
+  | Some s =>
+    if negb (is_summary_table m (s_table s)) then Fail
+    else if is_raw m s then Unmodelled
+    else bind (add_table name kinds true m) (fun '(m1, t) =>
+      let m2 := set_refts refts m1 in
+      if sec_is_card m2 sec || sec_is_raw m2 sec then Unmodelled
+      else if negb (cols_of_table m2 (map snd remap) t) then Unmodelled
+      else Ok (regroup_fields (mkRG sec 0 0 0 [] [] [] [] [] remap []) t m2))
   end.
 
 Fixpoint apply_regroups (rs : list regroup) (m : meta) : res meta :=
@@ -770,10 +905,16 @@ Inductive op :=
 | OSetRules (owner i : Z) (r : list Z)                   (* UpdateRecord ... {rules: shorter list} *)
 | OSetCustom (s : Z) (b : bool)                          (* UpdateRecord _grist_Views_section {options/theme/layoutSpec} *)
 | ORenameTable (t name : Z)                              (* RenameTable *)
-| OCreateSummary (src v : Z) (gb : list Z) (name : Z) (gbkinds fkinds : list Z)  (* CreateViewSection, group-by *)
+| OCreateSummary (src v : Z) (gb : list Z) (name : Z) (gbkinds fkinds dcopies : list Z)  (* CreateViewSection, group-by *)
 | ORegroup (r : regroup)                                 (* UpdateSummaryViewSection *)
 | ORemoveColumnsG (cols : list Z) (rs : list regroup)    (* RemoveColumn of group-by source columns *)
 | OSetVisible (col v : Z)                                (* UpdateRecord _grist_Tables_column {visibleCol} *)
+| OModifyType (col newreft : Z) (compatible changed gchanged : bool)   (* ModifyColumn that sets a type *)
+| OSetDisplaySisters (t col : Z) (set : bool) (reuse : Z) (sisters : list Z)   (* SetDisplayFormula, summary formula col *)
+| OReident (ckinds tnames : list (Z * Z))                (* RenameColumn, RenameTable *)
+| ODetach (sec name : Z) (kinds : list Z) (refts remap : list (Z * Z))   (* DetachSummaryViewSection *)
+| OCreateSectionShown (t v : Z) (shown : list Z)         (* CreateViewSection, chart or form *)
+| OCreateSummaryExisting (src v : Z) (gb : list Z) (target : Z) (added shown : list Z)  (* ..., existing summary *)
 | ONoMeta                                               (* an action that touches none of the modelled cells *)
 | OUnmodelled.                                           (* any other action *)
 
@@ -797,10 +938,16 @@ Definition step (o : op) (m : meta) : res meta :=
   | OSetRules owner i r => set_rules owner i r m
   | OSetCustom s b => set_custom s b m
   | ORenameTable t name => rename_table t name m
-  | OCreateSummary src v gb name gbkinds fkinds => create_summary src v gb name gbkinds fkinds m
+  | OCreateSummary src v gb name gbkinds fkinds dcopies => create_summary src v gb name gbkinds fkinds dcopies m
   | ORegroup r => apply_regroup r m
   | ORemoveColumnsG cols rs => remove_columns_regroup cols rs m
   | OSetVisible col v => set_visible col v m
+  | OModifyType col newreft compatible changed gchanged => modify_type col newreft compatible changed gchanged m
+  | OSetDisplaySisters t col set reuse sisters => set_display_sisters t col set reuse sisters m
+  | OReident ckinds tnames => reident ckinds tnames m
+  | ODetach sec name kinds refts remap => detach sec name kinds refts remap m
+  | OCreateSectionShown t v shown => create_section_shown t v shown m
+  | OCreateSummaryExisting src v gb target added shown => create_summary_existing src v gb target added shown m
   | ONoMeta => Ok m
   | OUnmodelled => Unmodelled
   end.
